@@ -62,6 +62,9 @@ func alphabet() []piece {
 		{Name: "g(1)", Prog: []*N{Expr(call("g", Int(1)))}},
 		{Name: "x:=2", Prog: []*N{Var("x", Int(2))}},
 		{Name: "y", Prog: []*N{Expr(Id("y"))}},
+		{Name: "if{x:=5;undefined}", Prog: []*N{If(Bool(true), []*N{Var("x", Int(5)), Expr(Bin("+", Id("x"), Id("undefined_name")))}, nil)}},
+		{Name: "for x{c=1}", Prog: []*N{ForRange("x", Int(2), Set1("c", Int(1)))}},
+		{Name: "if{x:=6;x}", Prog: []*N{If(Bool(true), []*N{Var("x", Int(6)), Expr(Id("x"))}, nil)}},
 	}
 }
 
@@ -212,6 +215,12 @@ func judge(r *ev.Run, env *rt.Env, alpha []piece, seq []int, verbose bool) strin
 			cause := cause(alpha, seq, i, want)
 			r.Report("C18:"+cause, fmt.Sprintf("pieces %q\n  piece %d: incremental %s, reference %s", names, i, got[i], want[i]), in, show(got), show(want))
 			return key
+		}
+	}
+	// names that are not globals of the program (block variables that vm.Get happens to find) are not compared
+	for k := range gg {
+		if _, ok := wg[k]; !ok {
+			delete(gg, k)
 		}
 	}
 	if gshow(gg) != gshow(wg) {
